@@ -109,7 +109,7 @@ PROPS = {
         "engines": [direct("C20", sq=10, st=10), storm("venue", sq=4, st=4), dict(storm("venue-wrapcheck", sq=2, st=2), profile="dbgassert")],
         "rule": "direct engine: each evaluation is one call of a venue conversion / adjustment / staleness function on inputs clustered at overflow cliffs, judged against exact rationals; distinct = (venue, decimals, magnitude classes of supplies and amount). venue engine (chain rig): each evaluation is one accepted kamino / solend / drift deposit or withdraw executed against the stateful venue stand-ins, judged in exact rationals on what marginfi booked versus what the venue credited or paid (position credit <= venue collateral credited, credit worth <= tokens paid, tokens received <= worth of the position decrease, bank books <= obligation collateral, pass-through vault unchanged), plus deposit-then-withdraw-all round trips and borrow / withdraw probes against a reserve that was not refreshed in the current slot; the venue-wrapcheck engine runs the same workload on a build with debug assertions on, where the fixed-point operators and from_num check overflow instead of wrapping (an overflow panic inside price / venue conversion code marks a silently wrapped value in the deployed profile); distinct adds (instruction, rate class, decimals, empty reserve, withdraw-all, injected venue rounding fault)",
         "assumptions": ["'never rounds in the user's favour' is judged as the statement defines it (round trips, Drift decrement >= increment); comparison against the exact quotient allows the derived truncation error of the scaled supplies", "the venue engines run the pass-through instructions against harness-side stand-ins of Kamino, Solend and Drift (the venue's own rounding - floor in the venue's favour, Drift's round-up of non-zero decrements - optional injected off-by-one/two rounding faults), not the venue programs"],
-        "floors": {"quick": {"C20.round_trips": 30000, "C20.monotonicity_pairs": 12000, "C20.adjust_i64/some": 6000, "C20.drift_inc_dec/ok": 6000, "C20.venue_ops/KaminoDeposit": 500, "C20.venue_ops/KaminoWithdraw": 150, "C20.venue_ops/SolendDeposit": 300, "C20.venue_ops/SolendWithdraw": 100, "C20.venue_ops/DriftDeposit": 300, "C20.venue_ops/DriftWithdraw": 100, "C20.chain_round_trips": 10, "venue.stale_reserve_borrow_rejected": 10, "wrapcheck.committed_transactions_observed_under_debug_assertions": 2000}},
+        "floors": {"quick": {"C20.round_trips": 30000, "C20.monotonicity_pairs": 12000, "C20.adjust_i64/some": 6000, "C20.drift_inc_dec/ok": 6000, "C20.venue_ops/KaminoDeposit": 500, "C20.venue_ops/KaminoWithdraw": 150, "C20.venue_ops/SolendDeposit": 300, "C20.venue_ops/SolendWithdraw": 100, "C20.venue_ops/DriftDeposit": 300, "C20.venue_ops/DriftWithdraw": 100, "C20.chain_round_trips": 10, "venue.stale_reserve_borrow_rejected": 10, "venue.stale_reserve_older_price_borrow_rejected": 10, "C20.cached_venue_prices_compared_at_rate_below_one": 50, "wrapcheck.committed_transactions_observed_under_debug_assertions": 2000}},
     },
     "C08": {
         "engines": [storm("matrix")],
